@@ -553,7 +553,9 @@ func c10Termination(c *Ctx, scope []*ssa.Function) {
 		}
 		ranges := map[*ssa.BasicBlock]bool{}
 		for _, l := range ssau.RangeLoops(fn) {
-			ranges[l.Header] = true
+			if !l.Counted {
+				ranges[l.Header] = true
+			}
 		}
 		var q *interval.Q
 		ord := newOrdinal()
